@@ -2,6 +2,7 @@ from asyncio import AbstractEventLoop, Task, get_running_loop, iscoroutinefuncti
 from collections import OrderedDict
 from collections.abc import Callable, Coroutine, Hashable
 from functools import _make_key, partial  # pyright: ignore[reportPrivateUsage]
+from inspect import markcoroutinefunction
 from time import monotonic
 from typing import NamedTuple, cast, overload
 from weakref import ref
@@ -229,6 +230,9 @@ class _AsyncCache[**Args, Result]:
                 return None
 
         self._next_expire_time: Callable[[], float | None] = next_expire_time
+
+        # async callable objects are not recognized as coroutine functions unless marked
+        markcoroutinefunction(self)
 
         # mimic function attributes if able
         mimic_function(function, within=self)
